@@ -1334,6 +1334,7 @@ package gogu
 
 //@ func gogu.SplitAtIndex
 //@   property C15 C16
+//@   arith checked
 //@   ensures len(result) == 2 && fresh(result)
 //@   ensures index < 0 ==> result[0] == "" && result[1] == str
 //@   ensures index >= len(str) ==> result[0] == str && result[1] == ""
